@@ -41,7 +41,9 @@ UN = {
 
 
 class Dag:
-    def __init__(self, path, eps_to_zero=False):
+    def __init__(self, path, eps_to_zero=False, merge_ulps=0):
+        self.merge_ulps = merge_ulps
+        self.merged_constants = 0
         self.nodes = []
         self.outs = []      # (a, b, d, name, wa, wb)
         self.recalls = []
@@ -77,7 +79,23 @@ class Dag:
             elif op == 'powf': self.nodes.append(('powf', int(p[2]), float(p[3])))
             elif op == 'un': self.nodes.append(('un', int(p[2]), p[3]))
             else: raise ValueError(line)
+        if merge_ulps:
+            self.merge_constants(merge_ulps)
         self.fold_constants()
+
+    def merge_constants(self, ulps):
+        """identify literal constants that differ by at most `ulps` units in the last place (roundoff of
+        parameter preprocessing done in a different operation order); counted, part of the claim"""
+        vals = sorted(set(n[1] for n in self.nodes if n[0] == 'const' and math.isfinite(n[1]) and n[1] != 0.0))
+        rep = {}
+        prev = None
+        for v in vals:
+            if prev is not None and (v > 0) == (prev > 0) and abs(v - prev) <= ulps * 2.220446049250313e-16 * abs(prev):
+                rep[v] = rep.get(prev, prev)
+                self.merged_constants += 1
+            prev = v
+        if rep:
+            self.nodes = [('const', rep.get(n[1], n[1])) if n[0] == 'const' else n for n in self.nodes]
 
     def children(self, i):
         n = self.nodes[i]
@@ -370,7 +388,18 @@ class Sweeper:
         bysig = {}
         t_start = time.time()
         lamv = [self.pts[k].get(LAMVAR, 1.0) for k in range(K)]
+        # only nodes in the fan-in of a claimed output matter
+        live = set()
+        stack = [x for a, b, d, nm, wa, wb in dag.outs if not (a == b and d == 0) for x in (a, b)]
+        while stack:
+            x = stack.pop()
+            if x in live: continue
+            live.add(x)
+            stack.extend(dag.children(x))
+        self.stats['live_nodes'] = len(live)
         for i, n in enumerate(nodes):
+            if i not in live:
+                self.canon[i] = (i, 0); continue
             if dag.cval[i] is not None:
                 self.canon[i] = (i, 0); bysig.setdefault(sig([float(dag.cval[i])] * K), []).append(i); continue
             if n[0] == 'const':  # non-finite constant
@@ -391,7 +420,7 @@ class Sweeper:
                         continue
                     for u in bysig.get(key, []):
                         if d != 0 and dag.cval[u] is not None and dag.cval[u] == 0: continue
-                        if self.prove(i, u, d):
+                        if self.prove(i, u, d, maxdepth=self.maxdepth + 3 if n[0] in ('add', 'sub') else None):
                             self.canon[i] = (u, d); found = True; break
                     if found: break
             elif finite:
@@ -411,7 +440,35 @@ class Sweeper:
                     if not any(zz) and (all(sg) or not any(sg)):
                         self.prove_sign(i, 1 if all(sg) else -1)
                     bysig.setdefault(sig(self.val[i]), []).append(i)
+        # extra effort on the claimed output relations themselves: deeper cones, longer timeout
+        for a, b, d, name, wa, wb in self.dag.outs:
+            ra, da = self.canon.get(a, (a, 0)); rb, db = self.canon.get(b, (b, 0))
+            if ra == rb and db - da == d: continue
+            if not all(math.isfinite(x) for x in self.val[a] + self.val[b]): continue
+            ok = all(abs(self.val[b][k] - self.val[a][k] * lamv[k] ** d) <= 1e-9 * max(abs(self.val[b][k]), 1e-300) for k in range(K))
+            if not ok or time.time() - t_start > self.budget_s: continue
+            if self.canon.get(b, (b, 0))[0] == b and b > a:
+                save = self.maxdepth
+                for md, to in ((8, 10000), (12, 30000)):
+                    self.maxdepth = md
+                    if self.prove_at(b, a, d, md, to):
+                        self.canon[b] = (a, d) if self.canon.get(a, (a, 0))[0] == a else (ra, d + da)
+                        break
+                self.maxdepth = save
         return self.results()
+
+    def prove_at(self, v, u, d, depth, timeout):
+        s = z3.Solver(); s.set('timeout', timeout)
+        s.add(self.lam > 0)
+        T = self.build([v, u], depth)
+        ev = T(v); eu = T(u)
+        for f in T.facts(): s.add(f)
+        s.add(ev != eu * self.lampow(d))
+        self.stats['rel_queries'] += 1
+        if self.check(s) == z3.unsat:
+            self.stats['rel_unsat'] += 1
+            return True
+        return False
 
     def results(self):
         res = []
